@@ -151,6 +151,17 @@ func (c *chunkReader) Write(p []byte) (int, error) { return len(p), nil }
 func (c *chunkReader) Close() error                { return nil }
 
 func c17Compare(u *vh.U, sig, desc string, want []*jsonrpc2.Message, read func() (*jsonrpc2.Message, error)) bool {
+	var kept []*jsonrpc2.Message // what the reader handed out, looked at again at the end
+	defer func() {
+		// a message that was read stays what it was while later ones are read (a consumer - Remote's
+		// read loop hands each to its own goroutine - may look at it any time later)
+		for i, g := range kept {
+			if g != nil && i < len(want) && c17Norm(g) != c17Norm(want[i]) {
+				u.Violate(sig+"/message-changed-after-delivery", fmt.Sprintf("%s: message %d of %d was delivered as %s; after the following messages had been read the same object reads %s", desc, i+1, len(want), abbreviate(c17Norm(want[i])), abbreviate(c17Norm(g))), nil)
+				return
+			}
+		}
+	}()
 	for i, w := range want {
 		var got *jsonrpc2.Message
 		var err error
@@ -164,8 +175,10 @@ func c17Compare(u *vh.U, sig, desc string, want []*jsonrpc2.Message, read func()
 				cls = "message-altered"
 			}
 			u.Violate(sig+"/"+cls, fmt.Sprintf("%s: message %d of %d: read %s err=%v, written %s", desc, i+1, len(want), abbreviate(c17Norm(got)), err, abbreviate(c17Norm(w))), nil)
+			kept = nil
 			return false
 		}
+		kept = append(kept, got)
 	}
 	return true
 }
